@@ -403,9 +403,13 @@ static int history_get_count(LHAPM2Decoder *decoder, unsigned int code)
 
 	if (code < 15) {
 		return (int) code + 2;
-	} else {
+	} else if (code - 15 < sizeof(copy_decode) / sizeof(*copy_decode)) {
 		return decode_variable_length(&decoder->bit_stream_reader,
 		                              copy_decode, code - 15);
+	} else {
+		// Not a valid copy code: the code tree read from the
+		// input stream can contain more codes than exist.
+		return -1;
 	}
 }
 
